@@ -39,8 +39,9 @@ CHECKS = {
                 "for every structure whose atom serial numbers increase strictly in traversal order and that has no empty container, every serial "
                 "number and alternate location (Proofs/C11find.v); the equality is also evaluated on every explored query.",
         "design_ref": "DESIGN.md section 6 C11",
-        "note": "Trusted: Coq kernel, extraction, harness; std sort stability and binary_search_by's loop as modelled. That renumber yields strictly "
-                "increasing serial numbers and is idempotent is checked by correspondence, not proved.",
+        "note": "Trusted: Coq kernel, extraction, harness; std sort stability and binary_search_by's loop as modelled. renumber is proved to hand out "
+                "the serial numbers 1, 2, 3, ... in traversal order, hence binary_find = linear_find on every renumbered structure without empty "
+                "containers; renumber idempotence is checked by correspondence, not proved.",
         "technique": "Coq proof (stable-sort characterisation, binary-search loop invariant, nested binary look-up = linear scan) + differential correspondence",
     },
     "C12": {
